@@ -4,6 +4,7 @@ import flowpaths.abstractpathmodeldag as pathmodel
 import flowpaths.utils as utils
 import flowpaths.nodeexpandeddigraph as nedg
 import copy
+import math
 
 
 class kMinPathError(pathmodel.AbstractPathModelDAG):
@@ -327,11 +328,15 @@ class kMinPathError(pathmodel.AbstractPathModelDAG):
         )
         
         # path slacks
+        # A slack that is scaled down by a path-length factor < 1 must be able to grow accordingly
+        slack_ub = self.w_max
+        if len(self.path_length_factors) > 0 and 0 < min(self.path_length_factors) < 1:
+            slack_ub = self.weight_type(math.ceil(self.w_max / min(self.path_length_factors)))
         self.path_slacks_vars = self.solver.add_variables(
             self.path_indexes,
             name_prefix="slack",
             lb=0,
-            ub=self.w_max,
+            ub=slack_ub,
             var_type="integer" if self.weight_type == int else "continuous",
         )
         
@@ -372,7 +377,7 @@ class kMinPathError(pathmodel.AbstractPathModelDAG):
                 self.path_indexes,
                 name_prefix="scaled_slack",
                 lb=0,
-                ub=self.w_max * max(self.path_length_factors),
+                ub=slack_ub * max(self.path_length_factors),
                 var_type="continuous",
             )
 
@@ -383,7 +388,7 @@ class kMinPathError(pathmodel.AbstractPathModelDAG):
                     continuous_var=self.slack_factors_vars[i],
                     product_var=self.scaled_slack_vars[i],
                     lb=0,
-                    ub=self.w_max * max(self.path_length_factors),
+                    ub=slack_ub * max(self.path_length_factors),
                     name=f"scaled_slack_i{i}",
                 )
                         
@@ -472,11 +477,15 @@ class kMinPathError(pathmodel.AbstractPathModelDAG):
 
 
         # path slacks
+        # A slack that is scaled down by a path-length factor < 1 must be able to grow accordingly
+        slack_ub = self.w_max
+        if len(self.path_length_factors) > 0 and 0 < min(self.path_length_factors) < 1:
+            slack_ub = self.weight_type(math.ceil(self.w_max / min(self.path_length_factors)))
         self.path_slacks_vars = self.solver.add_variables(
             self.path_indexes,
             name_prefix="slack",
             lb=0,
-            ub=self.w_max,
+            ub=slack_ub,
             var_type="integer" if self.weight_type == int else "continuous",
         )
         
@@ -517,7 +526,7 @@ class kMinPathError(pathmodel.AbstractPathModelDAG):
                 self.path_indexes,
                 name_prefix="scaled_slack",
                 lb=0,
-                ub=self.w_max * max(self.path_length_factors),
+                ub=slack_ub * max(self.path_length_factors),
                 var_type="continuous",
             )
 
@@ -528,7 +537,7 @@ class kMinPathError(pathmodel.AbstractPathModelDAG):
                     continuous_var=self.slack_factors_vars[i],
                     product_var=self.scaled_slack_vars[i],
                     lb=0,
-                    ub=self.w_max * max(self.path_length_factors),
+                    ub=slack_ub * max(self.path_length_factors),
                     name=f"scaled_slack_i{i}",
                 )
                         
